@@ -686,6 +686,14 @@ def run(res, tier, seed, proofs_ok):
                       {'theorem_or_correspondence': 'coverage',
                        'input': {'lines': [list(m) for m in missing[:20]]}},
                       found_input=False)
+    res.extra['tier_depth'] = (
+        'quick: 1x direct-call streams (150-300 cases each), bounds '
+        'exhaustive for 1-2 ranges (156), 240 random + 32 corpus valid decks, '
+        '60 broken decks, 3 inner points per element'
+        if quick else
+        'thorough: 8x direct-call streams, bounds exhaustive for 1-3 ranges '
+        '(1884), 3000 random + 96 corpus valid decks, 600 broken decks, 5 '
+        'inner points per element')
     res.extra['phase_seconds'] = {'direct_ties': round(t1 - t0, 1),
                                   'deck_stream': round(time.time() - t1, 1)}
 
@@ -753,8 +761,14 @@ def direct_ties(res, rng, quick):
 
     # -- LatticeBounds: size, dims, indices, __getitem__ --
     cases, metas, gcases, gmetas = [], [], [], []
-    for k in range(200 * mult):
-        bs = gen_bounds(rng)
+    # exhaustive small domain first: every list of 1-2 (quick) / 1-3 (thorough)
+    # ranges with lo in -2..1 and 1-3 points, then the random stream
+    small = [(lo, lo + n - 1) for lo in (-2, -1, 0, 1) for n in (1, 2, 3)]
+    exhaustive = [list(t) for r in ((1, 2) if quick else (1, 2, 3))
+                  for t in itertools.product(small, repeat=r)]
+    res.count('bounds:exhaustive small domain', len(exhaustive))
+    for k in range(len(exhaustive) + 200 * mult):
+        bs = exhaustive[k] if k < len(exhaustive) else gen_bounds(rng)
         obj = L.LatticeBounds(list(bs))
         idx = call(lambda o: [list(t) for t in o.indices()], obj)
         cases.append(cpair(
